@@ -513,3 +513,16 @@ impl Trees<'_> {
         Err(Error::Memory)
     }
 }
+
+/// `Trees::metadata_size` (C18): the tree array needs one 4-byte entry per (possibly partial) tree; the
+/// buffer size is cache-line rounded. Independent of the function itself (spec: ceil division).
+#[kani::proof]
+fn l0_trees_metadata_size() {
+    let frames: usize = kani::any();
+    kani::assume(frames <= (1usize << 44));
+    let n = Trees::metadata_size(frames);
+    let trees = frames / TREE_FRAMES + (frames % TREE_FRAMES != 0) as usize;
+    clause!(n >= trees * core::mem::size_of::<Atom<Tree>>(), "C18: the tree metadata holds one entry for every tree, the partial last tree included");
+    clause!(n % 64 == 0, "C18: the tree metadata size is cache-line rounded");
+    clause!(n < trees * core::mem::size_of::<Atom<Tree>>() + 64, "C18: the tree metadata size is the rounded-up array size, not more");
+}
